@@ -188,6 +188,63 @@ fn neighbours(rng: &mut Rng, p: &Pos) -> Vec<(Pos, &'static str)> {
     out
 }
 
+/// Every valid position that differs from `p` by ONE added or removed feature (a man put
+/// on an empty square or taken off, an ep square set, a right toggled, the side flipped).
+/// Hashed together under one key set, any two of them differ in two components: a key used
+/// for two different features (ep square hashed with a pawn's key, a right's key reused)
+/// makes two of them collide although every single-component change still changes the hash.
+fn one_feature_variants(p: &Pos) -> Vec<(Pos, &'static str)> {
+    let mut out = vec![];
+    let mut base = p.clone();
+    base.halfmove = base.halfmove.min(99);
+    base.fullmove = base.fullmove.clamp(1, 200);
+    for s in 0..64u8 {
+        if base.sq[s as usize] == EMPTY {
+            for k in [PAWN, KNIGHT, BISHOP, ROOK, QUEEN] {
+                if k == PAWN && (rank_of(s) == 0 || rank_of(s) == 7) {
+                    continue;
+                }
+                for c in [0, BLACK] {
+                    let mut q = base.clone();
+                    q.sq[s as usize] = k | c;
+                    if q.is_valid() {
+                        out.push((q, "man_added"));
+                    }
+                }
+            }
+        } else if kind(base.sq[s as usize]) != KING {
+            let mut q = base.clone();
+            q.sq[s as usize] = EMPTY;
+            if q.is_valid() {
+                out.push((q, "man_removed"));
+            }
+        }
+    }
+    if base.ep.is_none() {
+        let r = if base.white_to_move { 5 } else { 2 };
+        for f in 0..8 {
+            let mut q = base.clone();
+            q.ep = Some(sq(f, r));
+            if q.is_valid() {
+                out.push((q, "ep_added"));
+            }
+        }
+        let mut q = base.clone();
+        q.white_to_move = !q.white_to_move;
+        if q.is_valid() {
+            out.push((q, "side_flipped"));
+        }
+    }
+    for i in 0..4 {
+        let mut q = base.clone();
+        q.castle[i] = !q.castle[i];
+        if q.is_valid() {
+            out.push((q, "right_toggled"));
+        }
+    }
+    out
+}
+
 pub struct Judged {
     pub violations: Vec<(String, String, PairScenario, u64)>,
     pub probes: Counters,
@@ -258,6 +315,21 @@ pub fn run_sim(seed: u64) -> (Judged, Value) {
         keys.push(p.key());
         tags.push("same_position_via_fen");
         probes.add("same_position_via_fen", 1);
+    }
+    // two-component differences: all one-feature variants of a few base positions
+    for _ in 0..3.min(tree_n) {
+        let idx = rng.usize_below(tree_n);
+        let Some((_, p)) = specs[idx].build() else { continue };
+        let vs = one_feature_variants(&p);
+        probes.add("two_component_bases", 1);
+        for (q, what) in vs {
+            let fen = q.to_fen();
+            specs.push(BoardSpec { fen: fen.clone(), moves: vec![] });
+            boards.push(Board::new(&fen));
+            keys.push(q.key());
+            tags.push(what);
+            probes.add(&format!("variant_{}", what), 1);
+        }
     }
     let (hs, lh) = hash_under(key_seed, &boards);
     let mut j = Judged {
@@ -413,7 +485,7 @@ pub fn run(ctx: &Ctx) -> i32 {
     });
     let ev = Evidence {
         level: "exploration",
-        rule: "One sim = one key set drawn through the randomness seam and one root position (playouts of the rules model, constructed positions): the game tree to depth 2-3 is walked in parallel on the rules model and on engine boards (engine make_move), which reaches the same positions by many move orders; for 40 seeded tree positions every valid single-component neighbour (each castling right, side to move, ep square set/cleared/moved, one piece moved/removed/recoloured/retyped) and counter variants are added as FEN-built boards. Monitor: canonical position (placement, side, rights, ep) <-> hash must be a bijection on everything hashed under that key set. Evaluations = boards hashed; distinct = distinct canonical positions.".into(),
+        rule: "One sim = one key set drawn through the randomness seam and one root position (playouts of the rules model, constructed positions): the game tree to depth 2-3 is walked in parallel on the rules model and on engine boards (engine make_move), which reaches the same positions by many move orders; for 40 seeded tree positions every valid single-component neighbour (each castling right, side to move, ep square set/cleared/moved, one piece moved/removed/recoloured/retyped) and counter variants are added as FEN-built boards; for 3 seeded tree positions every valid one-feature variant (a man added on each empty square or removed, ep square set, right toggled, side flipped) is added too, so that all pairs of them - positions differing in two components - are compared. Monitor: canonical position (placement, side, rights, ep) <-> hash must be a bijection on everything hashed under that key set. Evaluations = boards hashed; distinct = distinct canonical positions.".into(),
         extra: serde_json::Map::new(),
         assumptions: vec![
             "weak claim: a monitor over visited positions, not a dedicated search; collision probability of honest 64-bit keys over <=1e5 boards per key set is ~1e-10 and the default seed is fixed".into(),
